@@ -1,7 +1,7 @@
 #!/bin/sh
 # tools/recheck_seed.sh <seed dir> <PID> [tier] [extra vcheck args]   - run the check against a fresh worktree carrying the seeded change
 # (no suite / demo confirmation: that is tools/eval_seed.sh)
-S="$1"; PID="$2"; TIER="${3:-quick}"; shift 3 2>/dev/null || shift 2
+S="$1"; PID="$2"; TIER="${3:-quick}"; if [ $# -ge 3 ]; then shift 3; else shift 2; fi
 V="$(cd "$(dirname "$0")/.." && pwd)"
 case "$S" in /*) ;; *) S="$(pwd)/$S";; esac
 W=/tmp/ev/re-$(basename "$S")-$$
